@@ -246,8 +246,8 @@ def run_unit(args):
                 break
             for d in diags2:
                 c = classify(d, path2, cur_lines)
-                if c["kind"] != "failed":
-                    continue
+                if c["kind"] != "failed" or ".gate(" not in (c.get("text") or ""):
+                    continue  # later passes only add call-site clauses (protocol actions), never invariants judged in a post-violation state
                 key = (c.get("fn"), c.get("site"), c.get("clause"))
                 if key in known_keys:
                     continue
